@@ -61,7 +61,10 @@ class DynamicFields:
       if virtual:
         super().__setattr__(name, value)
       if name in data:
+        # (a field of the line: no attribute of the instance is created,
+        # which would hide the field)
         self._set_existing_field(name, value)
+        return
       if (name in self.__class__.PREDEFINED_TAGS or
             self._is_valid_custom_tagname(name)):
         self.set(name, value)
